@@ -10,6 +10,7 @@
 #include "refgeom.hpp"
 #include "mc_explore.hpp"
 #include "mc_shims.hpp"
+#include "mc_sig.hpp"
 
 // every external header the library uses, before the identifiers are redirected
 #include "mc_preinclude.hpp"
@@ -242,120 +243,7 @@ namespace
             mc::fail("ASSERT", "grid family not compiled");
     }
 
-    // ------------------------------------------------------------------ symbolisation
-    std::map<std::string, std::string>& sym_cache()
-    {
-        static std::map<std::string, std::string> c;
-        return c;
-    }
-    // first source line inside the library for a program counter (inlined frames included)
-    std::string lib_line(const std::string& pc)
-    {
-        auto it = sym_cache().find(pc);
-        if (it != sym_cache().end())
-            return it->second;
-        std::string res = "unknown";
-        char exe[512];
-        ssize_t n = readlink("/proc/self/exe", exe, sizeof exe - 1);
-        if (n > 0 && pc != "(nil)")
-        {
-            exe[n] = 0;
-            // the return address points after the call: step back one byte
-            unsigned long long v = std::strtoull(pc.c_str(), nullptr, 16);
-            char cmd[1024];
-            std::snprintf(cmd, sizeof cmd, "addr2line -i -e %s 0x%llx 2>/dev/null", exe, v - 1);
-            FILE* p = popen(cmd, "r");
-            if (p)
-            {
-                char line[2048];
-                std::string first, lib;
-                while (fgets(line, sizeof line, p))
-                {
-                    std::string l = line;
-                    while (!l.empty() && (l.back() == '\n' || l.back() == ' '))
-                        l.pop_back();
-                    auto dpos = l.find(" (discriminator");
-                    if (dpos != std::string::npos)
-                        l = l.substr(0, dpos);
-                    if (first.empty())
-                        first = l;
-                    auto pos = l.find("include/fastscapelib/");
-                    if (pos != std::string::npos && lib.empty())
-                        lib = l.substr(pos + 8);
-                }
-                pclose(p);
-                if (!lib.empty())
-                    res = lib;
-                else if (!first.empty())
-                {
-                    auto slash = first.rfind('/');
-                    res = "outside-library:" + (slash == std::string::npos ? first : first.substr(slash + 1));
-                }
-            }
-        }
-        sym_cache()[pc] = res;
-        return res;
-    }
-
-    std::vector<std::string> signatures(const mc::Result& r)
-    {
-        std::vector<std::string> out;
-        if (r.verdict == "HANG")
-        {
-            std::vector<std::string> parts;
-            for (auto& tok : split(r.detail, ' '))
-            {
-                if (tok.empty())
-                    continue;
-                auto h = tok.find('#');
-                parts.push_back(h == std::string::npos ? tok : tok.substr(0, h));
-            }
-            std::sort(parts.begin(), parts.end());
-            parts.erase(std::unique(parts.begin(), parts.end()), parts.end());
-            std::string s = "hang";
-            for (auto& p : parts)
-                if (p.find("done") == std::string::npos)
-                    s += "/" + p;
-            out.push_back(s);
-        }
-        else if (r.verdict == "ASSERT")
-            out.push_back("assert/" + r.detail);
-        else if (r.verdict == "HORIZON")
-            out.push_back("livelock-or-horizon");
-        else if (r.verdict == "WATCHDOG")
-            out.push_back("unhooked-spin-or-watchdog");
-        else if (r.verdict != "OK" && r.verdict != "RACE")
-            out.push_back("harness/" + r.verdict + "/" + r.detail);
-        std::set<std::string> seen;
-        for (auto& rc : r.races)
-        {
-            auto f = split(rc, '|');  // kind|label|pc|other label|other pc|ctx|other ctx
-            if (f.size() < 5)
-                continue;
-            // attribute an access inside a standard-library helper to the innermost
-            // library call site on the accessing thread's call stack
-            auto attribute = [&](const std::string& pc, const std::string& ctxs)
-            {
-                std::string l = lib_line(pc);
-                if (l.rfind("fastscapelib/", 0) == 0)
-                    return l;
-                for (auto& c : split(ctxs, ','))
-                {
-                    std::string m = lib_line(c);
-                    if (m.rfind("fastscapelib/", 0) == 0)
-                        return m + "(via-std)";
-                }
-                return l;
-            };
-            std::string a = attribute(f[2], f.size() > 5 ? f[5] : ""), b2 = attribute(f[4], f.size() > 6 ? f[6] : "");
-            if (b2 < a)
-                std::swap(a, b2);
-            std::string sg = "race/" + a + "/vs/" + b2;
-            if (seen.insert(sg).second)
-                out.push_back(sg);
-        }
-        return out;
-    }
+    using mcsig::signatures;
 
     std::string sched_str(const std::vector<int>& s)
     {
@@ -467,6 +355,9 @@ int main(int argc, char** argv)
     add(rq, 1, { "U,2", "U,2" }, 1, true);
     add(rq, 0, { "U,2", "K,2,1,1,b" }, 1, true);
     add(rq, 0, { "K,2,1,1,a" }, 1, true);
+    // thread count growing / shrinking between two parallel calls on the same graph
+    add(rq, 1, { "K,2,1,1,b", "K,4,1,1,b" }, 0, true, 3000);
+    add(rq, 0, { "K,3,1,1,a", "U,2" }, 0, true, 3000);
     // grids that hand out scratch storage for neighbour look-ups: cache-less raster,
     // cache-less profile, triangular mesh
     add(rqn, 0, { "U,2" }, 1, true);
